@@ -39,6 +39,15 @@ RULE = ("exhaustive block: every link graph on 3 spots (frames 0,1,2 and 0,0,1) 
         "TRACK_ID, spot in two tracks, duplicate edge / spot id, self link, undeclared attributes, undeclared TRACK_ID, declaration without "
         "isint / dimension, unknown dimension, duplicate declaration, missing sections, bad TrackID entries, ROI count 0 / not dividing / "
         "missing on later spots / absent on earlier spots, negative id, missing coordinate, missing XML file); "
+        "chunk-boundary sweep: two documents (ROIs + extra features; no ROI, absent units) padded so that a byte inside each labelled piece "
+        "(Model, FeatureDeclarations, Spot/Edge/TrackFeatures and their end tags, first / middle / last Feature of each section, AllSpots, "
+        "SpotsInFrame, first / middle / last Spot incl. its ROI text, AllTracks, Track, Edge, FilteredTracks, TrackID, /Model, Settings, "
+        "ImageData, BasicSettings, /Settings, GUIState, DisplaySettings, /TrackMate) x 11 positions inside the piece is the first byte of a "
+        "32768-byte read of the streaming parser, padding placed as an XML comment before the piece / whitespace before the piece / Log text / "
+        "a comment before Model, boundary 1, 2 or 3 (quick: every 23rd, thorough: every 3rd combination) x flags x zarr_format; large "
+        "documents of 50 KB .. 1.6 MB (Log up to 1.5 MB, up to 400 spots of which <= 30 linked, up to 70 extra declared features per "
+        "section, ROIs up to 300 points, spot names and declaration names of ~1 KB, 33 KB attribute values in GUIState / ImageData, "
+        "comments of up to 33 KB at random pieces); "
         "non-trivial = at least 2 spots and the parser reached the spots; distinct by structural input")
 EXHAUSTIVE_BLOCKS = ["both tiers: all link graphs on 3 spots (frames 0,1,2: 8 edge sets; frames 0,0,1: 4 edge sets) x every FilteredTracks "
                      "subset + absent section x 4 discard-flag combinations",
@@ -46,13 +55,16 @@ EXHAUSTIVE_BLOCKS = ["both tiers: all link graphs on 3 spots (frames 0,1,2: 8 ed
                      "combinations (quick: every 6th)"]
 ASSUMPTIONS = [
     "abstraction boundary: lxml / ElementTree event streaming; the model takes the parsed document (attribute texts classified by "
-    "Python's own int() / float()); malformed XML is outside the claim",
+    "Python's own int() / float()); malformed XML is outside the claim.  Checked on every case: the Coq input rebuilt from an "
+    "independent full parse (lxml etree.parse) of the written file is identical to the one given to the model (else HARNESS-ERROR); the "
+    "implementation's streaming passes called directly (_get_specific_tags x2, _get_trackmate_version, _build_data) and the XML texts it "
+    "stores agree with that full parse (else an oracle failure, why=streaming)",
     "sections appear in TrackMate's order (FeatureDeclarations, AllSpots, AllTracks, FilteredTracks inside Model)",
     "coordinates (POSITION_*) are exact multiples of 2^-10 so that axis min/max is exact in the model; other float features may be any "
     "float (NaN, infinities, non-dyadic values travel as opaque tokens)",
     "integer feature values lie in the int64 range and spot ids below 2^63 (beyond, numpy's dtype inference leaves int64: outside the model)",
     "a column never mixes text with numbers (numpy would stringify the numbers: outside the model); a ROI element without text is outside the model",
-    "image folder / filename are normalised path texts (no trailing separator)",
+    "image folder / filename are normalised path texts (no trailing separator), the filename is relative (Path(folder) / filename with an absolute filename drops the folder: not modelled)",
     "a pre-existing target directory holds exactly a geff written by the library (foreign content at the target is C06's subject)",
     "validate_data(lineage) on a subset of the nodes (missing lineage ids) relies on the C14 model of validate_lineages",
 ]
@@ -845,7 +857,7 @@ def sweep_cases(rng, tier):
             for delta in deltas:
                 for kind in ("comment", "space", "log", "early"):
                     count += 1
-                    if count % (23 if tier == "quick" else 3):
+                    if count % (23 if tier == "quick" else 4):
                         continue
                     if bi == 1 and count % 3:
                         continue
@@ -861,7 +873,7 @@ def large_cases(rng, tier):
               dict(n=30, n_feat=3, roi_pts=300, log=200, opt=3), dict(n=25, n_feat=2, roi_pts=0, log=1_500_000, opt=2),
               dict(n=60, n_feat=6, roi_pts=6, log=40_000, long_names=900, opt=2), dict(n=400, n_feat=2, roi_pts=8, log=0, opt=2),
               dict(n=12, n_feat=70, roi_pts=0, log=0, long_names=1200, opt=4), dict(n=80, n_feat=4, roi_pts=0, log=300_000, comments=40, opt=4)]
-    reps = 1 if tier == "quick" else 5
+    reps = 1 if tier == "quick" else 4
     for rep in range(reps):
         for k, sh in enumerate(shapes):
             c = large_doc(r0, sh["n"], n_feat=sh["n_feat"], roi_pts=sh["roi_pts"], n_tracks=r0.randint(1, 6), long_names=sh.get("long_names", 0),
